@@ -41,9 +41,7 @@ def run(res, tier):
         tlc_ok(r, "L4Udp fixed")
         cov.update(states=r["distinct"], transitions=r["generated"], depth=r["depth"])
         # vacuity / self-test: the same invariants must FAIL on the protocol as it was at the pinned commit
-        rp = run_tlc(tmp, "L4Udp.tla", "L4Udp_pinned.cfg", timeout=600)
-        if not any("NoCrash" in e or "NoStaleDelete" in e for e in rp["errors"]):
-            raise Inconclusive("self-test: TLC no longer finds the crash in the pinned-commit protocol (invariants vacuous?)")
+        rp = run_tlc_expect(tmp, "L4Udp.tla", "L4Udp_pinned.cfg", ["NoCrash", "NoStaleDelete"], "TLC no longer finds the crash in the pinned-commit protocol (invariants vacuous?)", timeout=600)
         cov["model_selftest"] = "TLC finds the send-on-closed-channel crash in Mode=pinned in %d states" % rp["distinct"]
         # shutdown with handlers still running (beyond C09's "never crashes"): safety holds; the liveness property ClosersEnd
         # (a handler that has come back gets through Close) fails for the code as it is and holds for a Close that gives up
